@@ -880,7 +880,7 @@ Q(name="e2_set_peer_params", props=["C05", "C06", "C13", "C08"], func=r"connecti
   pure=[r"negotiate_max_idle_timeout$", r"get_max_ack_delay$"], inline=[r"VarInt::into_inner$"], allowed_panics=r"expect",
   functions=["Connection::set_peer_params"], pre=lambda c: "true", post=spp_post,
   bounds="every received parameter set: all eleven integer parameters are stored unchanged, StreamsState::set_params gets the received set, MTU discovery is told min(max_udp_payload_size, 65535), the idle timeout is negotiated against the received max_idle_timeout; callees opaque (covered by streams / mtud / negotiate_idle obligations)",
-  replay=("conn_set_peer_params_native", lambda m: [dict(mups=1200), dict(mups=1452), dict(mups=65535), dict(mups=65536), dict(mups=70000)]))
+  replay=("conn_set_peer_params_native", lambda m: [dict(mups=1200), dict(mups=1452), dict(mups=65535), dict(mups=65536), dict(mups=66236), dict(mups=70000)]))
 
 
 # ------------------------------------------------------------------ C05: an ACK releases send-window share exactly once (reset streams were settled at reset time)
